@@ -50,7 +50,7 @@ def runScript : Script → Req → Resp → HandlerOut
     | .eraseHeader k => runScript rest req { res with headers := hErase res.headers k }
     | .suppress => runScript rest req { res with suppress := true }
     | .throwStd => { res := res, threw := true }
-    | .throwOther => { res := res, threw := true }
+    | .throwOther => { res := res, threw := true, nonStd := true }
     | .echo => runScript rest req (res.setContent (echoBody req) (ascii "text/plain"))
     | .big n fill => runScript rest req (res.setContent (List.replicate n fill) (ascii "application/octet-stream"))
     | .nop => runScript rest req res
